@@ -91,8 +91,17 @@ def body_game(S, t, part):
                 m.events.post("pm_award")
                 sh["score"] += 100
                 sh["awards"] += 1
+            t2 = S.choice("timer2_b%dp%d" % (ball, p), 3)          # 0 nothing, 1 start, 2 start then timed pause (resumes after 2 s)
+            if t2 >= 1:
+                m.events.post("pt2_start")
+            if t2 == 2:
+                m.events.post("pt2_pause")
             dur = S.real("turn_s_b%dp%d" % (ball, p), 0, part["max_turn"])
             t.advance_time_and_run(dur)
+            if t2 == 0:
+                tm2 = m.timers["ptimer2"]
+                if tm2.running or tm2.ticks != 0:
+                    raise Violation("timer-state-belongs-to-one-player", "Timer.stop", "player %d ball %d did not touch the timer, but it is running=%s ticks=%s (a previous player's pause/resume leaked)" % (p, ball, tm2.running, tm2.ticks))
             # ---- isolation: nothing of the other players changed during this turn ----
             for q, before in others_before.items():
                 now_vars = dict(g.player_list[q - 1].vars)
